@@ -80,9 +80,10 @@ def rigid(rng, t, what):
         return math.cos(th / 2) * one - math.sin(th / 2) * ax
     if what == 'dilated':
         return t.generate_dilation_rotor(float(rng.choice([0.5, 2.0, 3.0])))
-    if what == 'general':
+    if what in ('general', 'wide'):
         T = t.generate_translation_rotor(ipt(rng, t, -3, 3))
-        th = float(rng.uniform(0.3, 2.8))
+        # 'wide': rotation angle in (pi, 2 pi), i.e. a rotor with negative scalar part
+        th = float(rng.uniform(0.3, 2.8)) if what == 'general' else float(rng.uniform(math.pi + 0.2, 2 * math.pi - 0.3))
         ax = (t.e12 + 0.5 * t.e13 - 0.25 * t.e23)
         ax = ax / abs(ax)
         return T * (math.cos(th / 2) * one - math.sin(th / 2) * ax)
@@ -129,7 +130,12 @@ def check_objects(res, rng, t, reps):
             if kind in ('line', 'plane'):
                 positions += ['parallel']
             positions += ['intersecting']
+            if kind in ('point_pair', 'circle'):
+                # positions in which C*~C (C = 1 + X2*X1) is a negative scalar: the 'infinite roots' branch of the normalising root, R*~R = -1
+                positions += ['disjoint', 'nested_opposite', 'coaxial_opposite']
+            pts0, X10 = pts, X1
             for position in positions:
+                pts, X1 = pts0, X10
                 site = dict(site0, kind=kind, position=position)
                 if position == 'general':
                     _, X2 = make_object(rng, t, kind)
@@ -143,6 +149,27 @@ def check_objects(res, rng, t, reps):
                     Tm = t.generate_translation_rotor(-cen)
                     V = ~Tm * t.generate_dilation_rotor(float(rng.choice([0.5, 2.0]))) * Tm
                     X2 = (V * X1 * ~V).normal()
+                elif position in ('disjoint', 'nested_opposite', 'coaxial_opposite'):
+                    # canonical round: centre c (integers), radius r, in the line c + s*e1 (point pair) / the plane through c spanned by e1, e2 (circle)
+                    c = ipt(rng, t, -3, 3)
+                    r = float(rng.choice([1.0, 2.0, 0.5, 3.0]))
+                    cpts = [c + r * t.e1, c - r * t.e1] if kind == 'point_pair' else [c + r * t.e1, c + r * t.e2, c - r * t.e1]
+                    X1 = build(kind, cpts, t).normal()
+                    pts = cpts
+                    if position == 'disjoint':
+                        # same line / same plane, no common point, same orientation
+                        V = t.generate_translation_rotor((2 * r + float(rng.choice([0.5, 1.0, 3.0]))) * t.e1)
+                        X2 = (V * X1 * ~V).normal()
+                    elif position == 'nested_opposite':
+                        Tm = t.generate_translation_rotor(-c)
+                        V = ~Tm * t.generate_dilation_rotor(float(rng.choice([0.5, 0.25, 3.0]))) * Tm
+                        if rng.random() < 0.5:
+                            V = t.generate_translation_rotor(0.125 * r * t.e1) * V      # nested, not concentric
+                        X2 = -(V * X1 * ~V).normal()
+                    else:
+                        # moved off its line / plane along the perpendicular direction, orientation reversed
+                        V = t.generate_translation_rotor(float(rng.choice([0.5, 1.0, 2.0])) * t.e3)
+                        X2 = -(V * X1 * ~V).normal()
                 elif position == 'parallel':
                     # translate along a direction not in the flat
                     V = t.generate_translation_rotor(2.0 * t.e1 + 1.0 * t.e2 - 3.0 * t.e3)
@@ -163,6 +190,7 @@ def check_objects(res, rng, t, reps):
                          sample=dict(kind=kind, position=position, points=inp['points']))
                 res.count(f'{kind}:{position}')
                 check_pair(res, t, kind, position, X1, X2, inp, site)
+            pts, X1 = pts0, X10
             # motor_between_rounds: a round and its rigidly moved copy
             if kind in ('point_pair', 'circle', 'sphere'):
                 V = rigid(rng, t, 'general')
@@ -187,7 +215,8 @@ def check_roots_logs(res, rng, t, reps):
     for _ in range(reps):
         TR = rigid(rng, t, 'general')
         S = t.generate_dilation_rotor(float(rng.choice([0.5, 0.75, 1.5, 2.0])))
-        for name, R in (('TR', TR), ('TRS', TR * S)):
+        TRw = rigid(rng, t, 'wide')
+        for name, R in (('TR', TR), ('TRS', TR * S), ('TR', TRw), ('TR', -TR)):
             site = dict(site0, rotor=name)
             inp = dict(site, R=R.value.tolist())
             res.case(('roots', name, tuple(np.round(R.value, 9).tolist())), nontrivial=True, sample=dict(rotor=name))
